@@ -32,6 +32,7 @@ from ..report import Report
 COUNTER_DESIGNS = [
     ("alias_args_style", {"AliasArgs": '{"_style"}'}),
     ("merge_into_template", {"MergeInPlace": "TRUE"}),
+    ("eager_parent", {"EagerParent": "TRUE"}),
     ("shallow_position", {"ShallowSlots": '{"_position"}'}),
     ("shallow_style", {"ShallowSlots": '{"_style"}'}),
     ("shallow_children", {"ShallowSlots": '{"_children"}'}),
